@@ -134,15 +134,11 @@ Qed.
    not read back: nan / inf are not float literals of the scanner), arrays mixing types (an option
    array holding a number without symbol).  Savefiles are printed with the default options, which
    are lossless. *)
-Definition line_ok (l : line) : Prop :=
-  good_line l /\
-  (l_array l = true -> exists t w, print_message o (l_path l) (line_avs l) 0 = Some (t, w)).
-
 Theorem good_lines_read : forall ls,
-  lossless o = true -> Forall line_ok ls -> Forall (line_reads dec2f dec2d o) ls.
+  lossless o = true -> Forall good_line ls -> Forall (line_reads dec2f dec2d o) ls.
 Proof.
-  intros ls Hl H. eapply Forall_impl; [|exact H]. intros l [Hg Hp].
-  exact (good_line_reads dec2f dec2d o l Hl Hg Hp).
+  intros ls Hl H. eapply Forall_impl; [|exact H]. intros l Hg.
+  exact (good_line_reads_total dec2f dec2d o l Hl Hg).
 Qed.
 
 Theorem roundtrip_tree_real_lines :
@@ -153,7 +149,7 @@ Theorem roundtrip_tree_real_lines :
     full_conditions a st -> comparable a st -> cstrings st ->
     declared a apropos ->
     pushes line apropos fuel (msgs (save_lines a st)) = Some ps -> ranked ps ->
-    lossless o = true -> Forall line_ok (save_lines a st) ->
+    lossless o = true -> Forall good_line (save_lines a st) ->
     exists fin,
       real_load (option (list Z)) scan_text_real (fun _ l s => tree_apply_line hp tid t l s)
                 (fun _ ls => sort_by_load_order apropos fuel ls) a
@@ -226,19 +222,19 @@ Theorem roundtrip_tree_real_lines_nonvacuous : forall dec2f dec2d,
   print_body opts_default (save_lines a fx_state)
     = Some [47; 101; 32; 116; 114; 117; 101; 10;  47; 115; 47; 120; 32; 57; 10;
             47; 116; 32; 91; 49; 32; 53; 93; 10]%Z /\
-  Forall (line_ok opts_default) (save_lines a fx_state) /\
+  Forall good_line (save_lines a fx_state) /\
   Forall (line_reads dec2f dec2d opts_default) (save_lines a fx_state).
 Proof.
   intros dec2f dec2d a. unfold a. rewrite fx_tapp_eq.
   split; [exact fx_full|]. split; [vm_compute; reflexivity|].
-  assert (H : Forall (line_ok opts_default) (save_lines fx_tapp fx_state)).
+  assert (H : Forall good_line (save_lines fx_tapp fx_state)).
   { change (save_lines fx_tapp fx_state)
       with [ {| l_path := [47; 101]%Z; l_array := false; l_vals := [SaveModel.VT true] |};
              {| l_path := [47; 115; 47; 120]%Z; l_array := false; l_vals := [SaveModel.VI 9] |};
              {| l_path := [47; 116]%Z; l_array := true; l_vals := [SaveModel.VI 1; SaveModel.VI 5] |} ].
     repeat constructor; unfold good_line; cbn [l_array l_path l_vals];
       try (eexists; reflexivity); try (intros; discriminate); try (eexists; split; [reflexivity|]; cbn; lia);
-      try discriminate; try (cbn; lia); try (intros _; eexists _, _; vm_compute; reflexivity).
+      try discriminate; try (cbn; lia).
     - cbn. intuition discriminate.
     - cbn. intuition discriminate.
     - intros x y [<-|[<-|[]]] [<-|[<-|[]]]; reflexivity. }
@@ -256,7 +252,7 @@ Definition ex_farray_line : line :=  (* /a [0.50 (0x1p-1) 5x-0.00 (-0x0p+0)] *)
      l_vals := SaveModel.VF 1056964608 :: repeat (SaveModel.VF 2147483648) 5 |}.
 
 Theorem good_line_examples : forall dec2f dec2d,
-  Forall (line_ok opts_default) [ex_float_line; ex_symbol_line; ex_dotted_line; ex_farray_line] /\
+  Forall good_line [ex_float_line; ex_symbol_line; ex_dotted_line; ex_farray_line] /\
   Forall (line_reads dec2f dec2d opts_default) [ex_float_line; ex_symbol_line; ex_dotted_line; ex_farray_line] /\
   print_body opts_default [ex_float_line; ex_symbol_line; ex_dotted_line; ex_farray_line] =
   Some ([47; 102; 32; 48; 46; 49; 48; 32; 40; 48; 120; 49; 46; 57; 57; 57; 57; 57; 97; 112; 45; 52; 41; 10] ++
@@ -266,10 +262,9 @@ Theorem good_line_examples : forall dec2f dec2d,
          40; 45; 48; 120; 48; 112; 43; 48; 41; 93; 10])%Z.
 Proof.
   intros dec2f dec2d.
-  assert (H : Forall (line_ok opts_default) [ex_float_line; ex_symbol_line; ex_dotted_line; ex_farray_line]).
+  assert (H : Forall good_line [ex_float_line; ex_symbol_line; ex_dotted_line; ex_farray_line]).
   { repeat constructor; unfold good_line; cbn [l_array l_path l_vals ex_float_line ex_symbol_line ex_dotted_line ex_farray_line];
-      try (eexists; reflexivity); try (intros; discriminate); try discriminate;
-      try (intros _; eexists _, _; vm_compute; reflexivity).
+      try (eexists; reflexivity); try (intros; discriminate); try discriminate.
     - eexists; split; [reflexivity|]. cbn. split; [lia | reflexivity].
     - eexists; split; [reflexivity|]. cbn. left. reflexivity.
     - eexists; split; [reflexivity|]. cbn. repeat constructor; lia.
